@@ -13,10 +13,14 @@ Norm(n, d) == LET s == IF d < 0 THEN -1 ELSE 1
 R(n) == <<n, 1>>
 RNaN == <<0, 0>>
 IsNaN(a) == a[2] = 0
-RAdd(a, b) == Norm(a[1] * b[2] + b[1] * a[2], a[2] * b[2])
-RSub(a, b) == Norm(a[1] * b[2] - b[1] * a[2], a[2] * b[2])
-RMul(a, b) == Norm(a[1] * b[1], a[2] * b[2])
-RDiv(a, b) == Norm(a[1] * b[2], a[2] * b[1])
+\* sums over the least common denominator and products after cross-cancellation keep intermediate values small
+RAdd(a, b) == LET g == GCD(a[2], b[2]) IN Norm(a[1] * (b[2] \div g) + b[1] * (a[2] \div g), (a[2] \div g) * b[2])
+RSub(a, b) == LET g == GCD(a[2], b[2]) IN Norm(a[1] * (b[2] \div g) - b[1] * (a[2] \div g), (a[2] \div g) * b[2])
+RMul(a, b) == LET g1 == GCD(Abs(a[1]), b[2])
+                  g2 == GCD(Abs(b[1]), a[2])
+              IN IF a[1] = 0 \/ b[1] = 0 THEN <<0, 1>>
+                 ELSE Norm((a[1] \div g1) * (b[1] \div g2), (a[2] \div g2) * (b[2] \div g1))
+RDiv(a, b) == RMul(a, IF b[1] < 0 THEN <<-b[2], -b[1]>> ELSE <<b[2], b[1]>>)
 RNeg(a) == <<-a[1], a[2]>>
 RLe(a, b) == a[1] * b[2] <= b[1] * a[2]
 RLt(a, b) == a[1] * b[2] < b[1] * a[2]
